@@ -91,6 +91,22 @@ type Ctx struct {
 	NoSlice    bool
 	mu         sync.Mutex
 	defined    map[string]string
+	origin     map[string]string // heap array symbol -> heap key (type|path)
+}
+
+// FreeSymbols: the declared (free) symbols the terms depend on, looking through definitions.
+func (c *Ctx) FreeSymbols(ts ...Term) map[string]bool {
+	c.mu.Lock()
+	defer c.mu.Unlock()
+	c.index()
+	if c.freeMemo == nil {
+		c.freeMemo = map[int][]string{}
+	}
+	var syms []string
+	for _, t := range ts {
+		syms = append(syms, symbolsOf(t.S)...)
+	}
+	return c.freeOf(syms, nil)
 }
 
 func NewCtx() *Ctx {
@@ -147,10 +163,21 @@ func (c *Ctx) Named(name string, s Sort) Term {
 	return Term{name, s}
 }
 
+// noteOrigin records which heap key (type|field path) a declared heap array stands for.
+func (c *Ctx) noteOrigin(sym, key string) {
+	if c.origin == nil {
+		c.origin = map[string]string{}
+	}
+	c.origin[sym] = key
+}
+
 // Define introduces a name for a term (keeps terms small).
 func (c *Ctx) Define(prefix string, t Term) Term {
 	if len(t.S) < 24 && !strings.Contains(t.S, " ") {
 		return t
+	}
+	if strings.HasPrefix(t.S, "(_ bv") && strings.Count(t.S, "(") == 1 {
+		return t // literals stay literals (recognisable as such)
 	}
 	// hash-consing: the same term always gets the same name, so syntactically
 	// equal facts are recognised as equal (an invariant over untouched data is
@@ -501,4 +528,42 @@ func sortedKeys(m map[string]bool) []string {
 	}
 	sort.Strings(ks)
 	return ks
+}
+
+// LiteralsOf: the bit-vector literals occurring in the term, looking through
+// definitions (used to recover the type tag stored into a freshly built
+// variadic operand array: the load is `select(store(.., tag))`).
+func (c *Ctx) LiteralsOf(t Term) []string {
+	c.mu.Lock()
+	defer c.mu.Unlock()
+	c.index()
+	seen := map[string]bool{}
+	var out []string
+	var walk func(s string, depth int)
+	walk = func(s string, depth int) {
+		if depth > 6 {
+			return
+		}
+		for i := 0; i+5 < len(s); i++ {
+			if strings.HasPrefix(s[i:], "(_ bv") {
+				j := strings.Index(s[i:], ")")
+				if j > 0 {
+					lit := s[i : i+j+1]
+					if !seen[lit] {
+						seen[lit] = true
+						out = append(out, lit)
+					}
+				}
+			}
+		}
+		for _, sym := range symbolsOf(s) {
+			if idx, ok := c.byName[sym]; ok && c.info[idx].isDef && !seen[sym] {
+				seen[sym] = true
+				l := c.lines[idx]
+				walk(l, depth+1)
+			}
+		}
+	}
+	walk(t.S, 0)
+	return out
 }
